@@ -250,8 +250,38 @@ def split_shard(arg):
   return n, okc, bad[:3]
 
 
+def large_shard(arg):
+  """Large messages: many long names in one MAX_DATAPOINTS_PER_MESSAGE batch (up to ~0.6 MB per message, below the
+  listener's 1 MiB frame limit) must arrive complete and in order like any other batch."""
+  kind, batch, count, namelen = arg
+  link = Link(kind, batch)
+  sent = [('L%d.' % i + 'y' * namelen, 1000 + i, float(i)) for i in range(count)]
+  data, left = link.transmit(sent)
+  got, exc, closing = receive(kind, data, None)
+  where = '%s link, %d datapoints with %d-character names, MAX_DATAPOINTS_PER_MESSAGE=%d (%d bytes on the wire)' % (
+    kind, count, namelen, batch, len(data))
+  rep = {'kind': kind, 'batch': batch, 'large': [count, namelen]}
+  if exc is not None or closing or left:
+    return 1, 0, [('transport', '%s: exception %r closing %r left %d' % (where, exc, closing, left), rep)]
+  if len(got) != len(sent):
+    missing = sorted(set(x[0].split('.')[0] for x in sent) - set(g[0].split('.')[0] for g in got))
+    return 1, 0, [('sequence', '%s: %d datapoints queued, %d ingested; missing %r' % (where, len(sent), len(got), missing[:5]), rep)]
+  short = [(n.split('.')[0] + '.<%d>' % (len(n)), t, v) for n, t, v in sent]
+  gshort = [(n.split('.')[0] + '.<%d>' % (len(n)), t, v) for n, t, v in got]
+  v = check_batch(kind, short, gshort, where)
+  if v:
+    return 1, 0, [(v[0], v[1], rep)]
+  return 1, 1, []
+
+
 def run(ctx):
   env.boot()
+  ltasks = [('pickle', 500, 9, 70000), ('pickle', 5, 9, 70000), ('pickle', 500, 600, 1100), ('line', 500, 600, 1100),
+            ('pickle', 500, 501, 1100)]
+  for cnt, ok, bad in core.pmap(large_shard, ltasks, fresh=True):
+    for key, what, rep in bad:
+      ctx.violation(key, what, rep)
+  ctx.add(large_message_cases=len(ltasks))
   vals = doubles()
   if not ctx.thorough:
     vals = vals[::3] + vals[-400:]
@@ -295,6 +325,13 @@ def replay(path):
   body = json.load(open(path))
   rep = body['replay']
   kind = rep['kind']
+  if rep.get('large'):
+    n, ok, bad = large_shard((kind, rep['batch'], rep['large'][0], rep['large'][1]))
+    for key, what, _ in bad:
+      print('oracle: [%s] %s' % (key, what))
+    if not bad:
+      print('oracle: holds')
+    return 1 if bad else 0
   sent = [(s[0], s[1], float(s[2]) if isinstance(s[2], str) else s[2]) for s in rep['sent']]
   link = Link(kind, rep.get('batch', 500))
   data, left = link.transmit(sent)
